@@ -101,6 +101,8 @@ func renderResult(ms []*hsms.DataMessage, err error) string {
 	return sb.String()
 }
 
+var lawViolations []string
+
 // floatTable lists every token of text that strconv.ParseFloat accepts, with the bits of the
 // result: candidates are all suffixes of the maximal runs free of Unicode spaces and '>'.
 func floatTable(text string) string {
@@ -121,6 +123,10 @@ func floatTable(text string) string {
 					v, err := strconv.ParseFloat(tok, w*8)
 					if err != nil {
 						continue
+					}
+					// law L4: what ParseFloat(_, 32) returns without error is a value a float32 holds
+					if w == 4 && !math.IsNaN(v) && !math.IsInf(v, 0) && float64(float32(v)) != v {
+						lawViolations = append(lawViolations, fmt.Sprintf("ParseFloat(%q,32) = %v is not a float32 value", tok, v))
 					}
 					k := fmt.Sprintf("%d:%s:%d", w, smlcase.Hex([]byte(tok)), math.Float64bits(v))
 					if !seen[k] {
@@ -555,6 +561,14 @@ func main() {
 	}
 	for _, t := range fixedTexts {
 		pcase(t, "fixed")
+	}
+
+	// premises about strconv that are not checked per value elsewhere
+	if strconv.Quote("\u00a0") != `"\u00a0"` {
+		c.Fail("strconv premise violated: Quote(U+00A0) is not the \\u00a0 escape (C13_encode_parse_localized_refuted)", strconv.Quote("\u00a0"))
+	}
+	for _, v := range lawViolations {
+		c.Fail("strconv oracle law violated (ParseFloat bit size 32 returned a non-float32 value)", v)
 	}
 
 	// ---- strconv integer parsing against Base/Decimal.v ----
